@@ -166,6 +166,40 @@ class Config:
             o = self.cache[(kind, A, side)] = self.build(kind, A, side)
         return o
 
+    def deep_cases(self, ops):
+        """Tree operands of three and more levels THINNED by deletions (16 keys at node sizes 2/2, then all but a few
+        removed by one of four plans: a root with one interior child over several leaves, emptied first leaves) as left
+        and as right operand of every operation, against every other operand kind - shapes the subset enumeration (a
+        handful of keys) never reaches."""
+        base = list(range(101, 117)) if self.fam != "fs" else None
+        if base is None:
+            return
+        for k in base:
+            self.idx[k] = (k - 101) % max(1, len(self.U))
+        self.U = list(self.U) + base
+        plans = {"top": [k for k in reversed(base) if k > 104],
+                 "bottom": [k for k in base if k < 113],
+                 "both-ends": [k for k in base if k < 106] + [k for k in reversed(base) if k > 110],
+                 "every-other-then-top": base[1::2] + [k for k in reversed(base[0::2]) if k > 107]}
+        for plan, dels in plans.items():
+            rest = tuple(k for k in base if k not in dels)
+            for kind in ("BTree", "TreeSet"):
+                for side in ("l", "r"):
+                    t = self.build(kind, tuple(base), side)
+                    for k in dels:
+                        (t.remove(k) if kind in SETS else t.__delitem__(k))
+                    self.cache[(kind, rest, side)] = t
+            others = [(rest[0], rest[-1]), (rest[1], 116 if 116 not in rest else 101), rest]
+            for op, lk, rk in ops:
+                if "BTree" not in (lk, rk) and "TreeSet" not in (lk, rk) or "self" in (lk, rk) or "None" in (lk, rk):
+                    continue
+                for B in others:
+                    B = tuple(sorted(set(B)))
+                    if lk in ("BTree", "TreeSet"):
+                        self.case(op, lk, rk, rest, B)
+                    if rk in ("BTree", "TreeSet"):
+                        self.case(op, lk, rk, B, rest)
+
     def snapshot(self, kind, A, side):
         if kind in SETS:
             return list(A)
@@ -675,6 +709,7 @@ def run_config(args):
                 if skipA.get(lk) or skipB.get(rk):
                     continue
                 c.case(op, lk, rk, A, B)
+    c.deep_cases(ops)
     return c.evals, c.nontrivial, [(f, n) for f, _, n in c.fail.values()], c.samples
 
 
